@@ -144,7 +144,9 @@ def contextualRules (cfg : Cfg) (cx : Cx) (b : Blk) : List (Err × Bool) :=
   unclesRules cfg cx b ++ commitRules cfg cx b ++
   [ (.daoCalc, b.daoCalcOk), (.invalidDao, b.daoEq) ] ++
   rewardRules cfg cx b ++ extensionRules (cfg.forParentEpoch cx.parentEpochNumber) b ++
-  [ (.txs, b.txsOk), (.exceededCycles, decide (b.cycles ≤ cfg.maxCycles)) ]
+  [ (.txs, b.txsOk),
+    (.daoLockSizeMismatch, !cfg.rfc0044Active cx.parentEpochNumber || daoLockSizeOk cfg b),
+    (.exceededCycles, decide (b.cycles ≤ cfg.maxCycles)) ]
 
 def allRules (cfg : Cfg) (hcx : HeaderCx) (cx : Cx) (b : Blk) : List (Err × Bool) :=
   headerRules cfg hcx b ++ nonContextualRules cfg b ++ contextualRules cfg cx b
